@@ -375,7 +375,7 @@ def _loop_body_check(f, entry_call, callees_allowed):
                 for k_ in keys_:
                     gk = P_.fns[k_]
                     # a callee that takes a closure fails exactly when that closure does: judged at the call site's closure only
-                    clos_params = [i_ for i_ in range(1, gk.arg_count + 1) if re.fullmatch(r"[A-Z]\w{0,3}", gk.local_ty(i_)) or gk.local_ty(i_).startswith("{closure")]
+                    clos_params = [i_ for i_ in range(1, gk.arg_count + 1) if re.fullmatch(r"[A-Z]\w{0,3}", gk.local_ty(i_)) or gk.local_ty(i_).startswith("{closure") or gk.local_ty(i_).startswith("impl ")]
                     if clos_params:
                         passed = [P_.fns.get(ck) for ck in (sc.func.get("closure_args") or [])]
                         if passed and all(pf is not None and not _may_fail(P_, pf) for pf in passed):
